@@ -103,7 +103,10 @@ def run(tier, seed, work):
                 ln.verdict, ln.details = "undecided", [str(e)[:200]]
             continue
         bad = []
+        ln.badsets = []
         for D, leaf in parts:
+            if (leaf[0] == "effect" and leaf[1] == "ubsantrap") or leaf == gate.UNDEF:
+                ln.badsets.append(D)
             if leaf[0] == "effect" and leaf[1] == "ubsantrap":
                 kind = leaf[2][0][2]
                 bad.append("for the free operand in %s the operation executes an undefined step: %s" % (D.describe(ln.F.signed), UBKIND.get(kind, "ubsan kind " + kind)))
@@ -118,6 +121,22 @@ def run(tier, seed, work):
         if ln.verdict == "refuted":
             sg = lambda t: "-" if not t else ("s" if t.startswith("i") else "u")
             fk = "%s/%s/%s%s/ub%s" % (ln.cfg, ln.meta.get("op"), sg(ln.meta.get("A")), sg(ln.meta.get("B")), "/anycount" if ln.meta.get("anycount") else "")
+            if ln.meta.get("op") in ("<<", ">>") and ln.meta.get("A") in BY_SHORT:
+                # which shifts: count below the width of the promoted left operand or not; left operand zero or not
+                width = promote(BY_SHORT[ln.meta["A"]]).bits
+                bs = getattr(ln, "badsets", [])
+                allbad = ISet.empty(ln.F.bits)
+                for D in bs:
+                    allbad = allbad | D
+                ivs = allbad.signed_intervals() if ln.F.signed else list(allbad.ivs)
+                K = ln.meta.get("K")
+                if ln.meta.get("side") == "lhs":        # left operand pinned, count free
+                    cc = "oversize" if ivs and min(a for a, b in ivs) >= width else "inrange"
+                    lc = "zero" if K == 0 else "nonzero"
+                else:                                   # count pinned, left operand free
+                    cc = "oversize" if K is not None and K >= width else "inrange"
+                    lc = "zero" if ivs and all(a == 0 and b == 0 for a, b in ivs) else "nonzero"
+                fk += "/count-%s/lhs-%s" % (cc, lc)
             r.violation(ln.key, "%s: `%s`: %s" % (ln.key, ln.cnl, "; ".join(ln.details[:2])),
                         {"key": ln.key, "cnl": ln.cnl, "cfg": ln.cfg, "details": ln.details, "gated": getattr(ln, "gk", None), "meta": ln.meta, "finding_key": fk}, finding_key=fk)
         elif ln.verdict == "broken":
